@@ -170,6 +170,10 @@ func routerSession1(r *rand.Rand, k routerKnobs, emit Emit) {
 			for j := range rt.segs[:len(rt.segs)-1] {
 				rt.segs[j].optional = false
 			}
+			if cut == len(base.segs) && len(rt.segs) == len(base.segs) && r.Intn(2) == 0 {
+				// the same route with the optional mark of its last segment toggled
+				rt.segs[len(rt.segs)-1].optional = !rt.segs[len(rt.segs)-1].optional
+			}
 		} else {
 			rt = genRoute(r, k.prof)
 		}
